@@ -43,6 +43,9 @@ enum Step {
 	Drop(usize),
 	ServerClose { slot: usize, in_array: bool },
 	LagClose(usize),
+	/// the overflowing notifications and the server's close notification for the same subscription arrive back to back
+	/// (the client's own close request for the lagging subscription is still queued when the server's close is handled)
+	LagThenServerClose { slot: usize, in_array: bool },
 	Notify(usize),
 	RegisterHandler(usize),
 	UnregisterHandler(usize),
@@ -335,6 +338,24 @@ async fn run_spec(spec: &Spec) -> Out {
 					}
 				}
 			}
+			Step::LagThenServerClose { slot, in_array } => {
+				if let (true, Some(id)) = (w.live[*slot], w.sub_ids[*slot].clone()) {
+					if w.handles[*slot].is_some() {
+						let mut parts: Vec<String> = (0..BUFFER + 1).map(|k| sub_notif("m", &id, json!(k))).collect();
+						parts.push(sub_close("m", &id, json!("bye")));
+						if *in_array {
+							w.srv.push_text(array_of(&parts));
+						} else {
+							for p in parts {
+								w.srv.push_text(p);
+							}
+						}
+						out.history.push(format!("server floods slot {slot} and closes it at once (in one array: {in_array})"));
+						w.live[*slot] = false;
+						out.subs_ended += 1;
+					}
+				}
+			}
 			Step::Notify(slot) => {
 				// a notification for the slot's subscription id, live or stale
 				if let Some(id) = w.sub_ids[*slot].clone() {
@@ -618,6 +639,7 @@ fn leak_feature(steps: &[Step]) -> String {
 			Step::Drop(_) => "drop",
 			Step::ServerClose { .. } => "server-close",
 			Step::LagClose(_) => "lag",
+			Step::LagThenServerClose { .. } => "lag+server-close",
 			Step::AckError(_) => "unsubscribe-error-ack",
 			_ => continue,
 		};
@@ -646,7 +668,7 @@ fn gen_spec(seed: u64) -> Spec {
 			10 | 11 => Step::Unsubscribe(r.usize(SLOTS)),
 			12 | 13 => Step::Drop(r.usize(SLOTS)),
 			14 | 15 => Step::ServerClose { slot: r.usize(SLOTS), in_array: r.bool() },
-			16 => Step::LagClose(r.usize(SLOTS)),
+			16 => if r.bool() { Step::LagClose(r.usize(SLOTS)) } else { Step::LagThenServerClose { slot: r.usize(SLOTS), in_array: r.bool() } },
 			17 => Step::Notify(r.usize(SLOTS)),
 			18 => Step::RegisterHandler(r.usize(SLOTS)),
 			19 => Step::UnregisterHandler(r.usize(SLOTS)),
@@ -672,6 +694,8 @@ fn directed_specs(reps: usize) -> Vec<(Spec, String)> {
 		("subscribe-server-close", vec![Step::Subscribe(0, SubAnswer::Accept), Step::ServerClose { slot: 0, in_array: false }, Step::Drop(0)]),
 		("subscribe-server-close-in-array", vec![Step::Subscribe(0, SubAnswer::Accept), Step::ServerClose { slot: 0, in_array: true }, Step::Drop(0)]),
 		("subscribe-lag-close", vec![Step::Subscribe(0, SubAnswer::Accept), Step::LagClose(0), Step::Ack(0), Step::Drop(0)]),
+		("subscribe-lag-and-server-close", vec![Step::Subscribe(0, SubAnswer::Accept), Step::LagThenServerClose { slot: 0, in_array: false }, Step::Ack(0), Step::Drop(0)]),
+		("subscribe-lag-and-server-close-in-array", vec![Step::Subscribe(0, SubAnswer::Accept), Step::LagThenServerClose { slot: 0, in_array: true }, Step::Ack(0), Step::Drop(0)]),
 		(
 			"sub-id-issued-again",
 			vec![
